@@ -46,6 +46,8 @@ FIELDS = {
         {"kind": "naive", "metric": "IOU", "thr": 0.6000000000000001, "m2o": False},  # one ulp above the 12/20 probe score
         {"kind": "naive", "metric": "IOU", "thr": 4 / 9, "m2o": False},  # exactly the 8/18 probe score
         {"kind": "merge", "metric": "DSC", "thr": 0.7500000000000001},
+        {"kind": "naive", "metric": "IOU", "thr": 1e-07, "m2o": False},   # written in exponent notation
+        {"kind": "naive", "metric": "ASSD", "thr": 2.5e-06, "m2o": False},
         {"kind": "naive", "metric": "DSC", "thr": 0.5, "m2o": False},
         {"kind": "naive", "metric": "ASSD", "thr": 1.0, "m2o": False},
         {"kind": "naive", "metric": "IOU", "thr": 0.5, "m2o": True},
@@ -72,7 +74,7 @@ FIELDS = {
     ],
     "metrics": [["DSC"], ["IOU", "ASSD"], ["DSC", "IOU", "ASSD", "RVD", "clDSC"], ["RVD", "IOU"]],
     "global": [[], ["IOU"], ["DSC", "ASSD", "RVD"], ["RVD", "DSC"]],
-    "decision": [("IOU", 0.7), ("DSC", 0.9), ("ASSD", 0.5), ("IOU", 0.25), ("IOU", 0.6000000000000001), ("IOU", 4 / 9), ("ASSD", 0.0)],
+    "decision": [("IOU", 0.7), ("DSC", 0.9), ("ASSD", 0.5), ("IOU", 0.25), ("IOU", 0.6000000000000001), ("IOU", 4 / 9), ("ASSD", 0.0), ("IOU", 1e-07), ("DSC", 2.5e-06)],
     "save_group_times": [True],
     "log_times": [True],
     "verbose": [True],
@@ -425,6 +427,13 @@ for n, t in names.items():
             out["problems"].append({"name": n, "saved_threshold": t, "loaded_threshold": got})
     except Exception as ex:
         out["problems"].append({"name": n, "exc": repr(ex)[:300]})
+# loading the same name twice gives two independent objects (changing one through its setters must not show in the other)
+e1 = Panoptica_Evaluator.load_from_config_name("verif_plain")
+e1.set_log_group_times(True)
+e1._set_instance_matcher(NaiveThresholdMatching(matching_threshold=0.9))
+e2 = Panoptica_Evaluator.load_from_config_name("verif_plain")
+if e2 is e1 or e2._Panoptica_Evaluator__instance_matcher._matching_threshold != 0.5 or e2._Panoptica_Evaluator__save_group_times:
+    out["problems"].append({"name": "verif_plain", "second_load_shares_state_with_first": True})
 g = SegmentationClassGroups({"a": LabelGroup([1, 2]), "b": LabelGroup([3], True)})
 g.save_to_config_by_name("verif_groups.x")
 try:
